@@ -16,7 +16,8 @@ vars == <<sp, list, place>>
 PW == ("root" :> "/root") @@ ("nobody" :> "/nonexistent")
 EuidHome == "/root"
 
-Dirs == {"$R/d1", "$R/d2", "$R/missing", "~nouser/d", "~root/.vf-nonexistent"}
+(* "$R/d2/sub" extends the name of "$R/d2": directories are told apart by their whole name *)
+Dirs == {"$R/d1", "$R/d2", "$R/d2/sub", "$R/missing", "~nouser/d", "~root/.vf-nonexistent"}
 Kinds == {"file", "dir", "none"}
 
 FsOf(p) ==
